@@ -162,6 +162,26 @@ let rec show_re = function
 let aop_ x = match atom x with "=" -> OpEq | "~=" -> OpWord | "|=" -> OpDash | "^=" -> OpPrefix | "$=" -> OpSuffix
   | "*=" -> OpSubstr | _ -> failwith "aop"
 
+let show_strs l = "(" ^ Stdlib.String.concat " " (List.map show_str l) ^ ")"
+let show_opt_re = function None -> "none" | Some r -> "(some " ^ show_re r ^ ")"
+let b01 b = if b then "1" else "0"
+let rec show_sel = function
+  | SNull -> "null"
+  | Sel (tag, ids, classes, attrs, nths, subs, rel, rt, contains, langs, flags) ->
+    let tag_s = match tag with None -> "none"
+      | Some t -> "(some (tag " ^ show_str t.tg_name ^ " " ^ show_opt show_str t.tg_prefix ^ "))" in
+    let attrs_s = Stdlib.String.concat " " (List.map (fun a ->
+      "(attr " ^ show_str a.at_name ^ " " ^ show_str a.at_prefix ^ " " ^ show_opt_re a.at_pat ^ " " ^ show_opt_re a.at_xml_pat ^ ")") attrs) in
+    let nths_s = Stdlib.String.concat " " (List.map (fun (SNth (a, n, b, ot, last, s)) ->
+      "(nth " ^ show_z a ^ " " ^ b01 n ^ " " ^ show_z b ^ " " ^ b01 ot ^ " " ^ b01 last ^ " " ^ show_sl s ^ ")") nths) in
+    let subs_s = Stdlib.String.concat " " (List.map show_sl subs) in
+    let cont_s = Stdlib.String.concat " " (List.map (fun c -> "(contains " ^ show_strs c.ct_text ^ " " ^ b01 c.ct_own ^ ")") contains) in
+    let langs_s = Stdlib.String.concat " " (List.map show_strs langs) in
+    "(sel " ^ tag_s ^ " " ^ show_strs ids ^ " " ^ show_strs classes ^ " (" ^ attrs_s ^ ") (" ^ nths_s ^ ") (" ^ subs_s ^ ") "
+    ^ show_sl rel ^ " " ^ show_opt show_str rt ^ " (" ^ cont_s ^ ") (" ^ langs_s ^ ") " ^ string_of_int (int_of_n flags) ^ ")"
+and show_sl (SL (sels, isnot, ishtml)) =
+  "(sl (" ^ Stdlib.String.concat " " (List.map show_sel sels) ^ ") " ^ b01 isnot ^ " " ^ b01 ishtml ^ ")"
+
 let cur_tree = ref { t_xml = false; t_isdoc = false; t_root = Str (KText, []) }
 let cur_ns = ref []
 let cur_sl = ref (SL ([], false, false))
@@ -196,6 +216,19 @@ let handle (e : sexp) : Stdlib.String.t =
   | L [A "filter"; p] -> show_res show_paths (api_filter bidi_of !cur_tree !cur_ns !cur_sl (path_ p))
   | L [A "closest"; p] -> show_res (show_opt show_path) (api_closest bidi_of !cur_tree !cur_ns !cur_sl (path_ p))
   | L [A "attr_template"; op; v; ic; dotall] -> show_re (attr_template (aop_ op) (str_ v) (bool_ ic) (bool_ dotall))
+  | L [A "compile"; p; cu] ->
+    let custom = match cu with A "none" -> None
+      | L [A "some"; L kvs] -> Some (List.map (function L [k; v] -> (str_ k, str_ v) | _ -> failwith "kv") kvs)
+      | _ -> failwith "custom" in
+    show_res show_sl (compile (str_ p) custom)
+  | L [A "unescape"; s; m] -> show_str (css_unescape (str_ s) (bool_ m))
+  | L [A "escape"; s] -> show_str (escape (str_ s))
+  | L [A "context"; p; i] ->
+    let ((ctx, line), col) = get_pattern_context (str_ p) (z_of_string (atom i)) in
+    "(" ^ show_str ctx ^ " " ^ show_z line ^ " " ^ show_z col ^ ")"
+  | L [A "linecol"; p; i] ->
+    let (l, c) = line_col (str_ p) (nat_of_int (int_ i)) in "(" ^ show_z l ^ " " ^ show_z c ^ ")"
+  | L [A "pretty"; s] -> show_opt show_str (pretty (str_ s))
   | L [A "lru"; mx; L ops] ->
     let (outs, size) = lru_trace (nat_of_int (int_ mx))
         (List.map (function A "p" -> None | x -> Some (nat_of_int (int_ x))) ops) in
